@@ -326,6 +326,325 @@ theorem then_entry (f g : Tensor R) (hf : f.WF) (hg : g.WF) (h : f.cod = g.dom)
     (by simp [hi.length_eq, hk.length_eq])]
   exact (tensordot_then f g hf hg h).2 hi hk
 
+/-! #### moveaxis for the block-exchange pattern -/
+
+theorem moveaxis_blockswap (a : NDArray R) {P W X Y Z Q : List Nat}
+    (hs : a.shape = P ++ W ++ X ++ Y ++ Z ++ Q) :
+    (a.moveaxis (List.range' P.length (W.length + X.length + Y.length + Z.length))
+        (swapTargets P.length W.length X.length Y.length Z.length)).shape
+        = (P ++ W) ++ Y ++ X ++ (Z ++ Q) ∧
+    ∀ {pw x y zq : List Nat}, InRange (P ++ W) pw → InRange X x → InRange Y y →
+      InRange (Z ++ Q) zq →
+      (a.moveaxis (List.range' P.length (W.length + X.length + Y.length + Z.length))
+        (swapTargets P.length W.length X.length Y.length Z.length)).get (pw ++ y ++ x ++ zq)
+        = a.get (pw ++ x ++ y ++ zq) := by
+  have hn : a.ndim = P.length + W.length + X.length + Y.length + Z.length + Q.length := by
+    simp [NDArray.ndim, hs, Nat.add_assoc]
+  have hs' : a.shape = (P ++ W) ++ X ++ Y ++ (Z ++ Q) := by simp [hs, List.append_assoc]
+  unfold NDArray.moveaxis
+  rw [hn, moveaxisOrder_blockswap]
+  have e1 : P.length + W.length = (P ++ W).length := by simp
+  have e2 : Z.length + Q.length = (Z ++ Q).length := by simp
+  rw [e1, e2]
+  exact ⟨transpose_swapOrder_shape a hs', fun hpw hx hy hzq =>
+    transpose_swapOrder_get a hs' hpw hx hy hzq⟩
+
+theorem swapOrder_x_zero (p y q : Nat) : swapOrder p 0 y q = List.range (p + y + q) := by
+  simp only [swapOrder, List.range'_zero, List.append_nil, Nat.add_zero, List.range_eq_range']
+  rw [range'_split 0 (p + y) q, range'_split 0 p y]
+  simp
+
+/-- With an empty block `X` the pattern is the identity. -/
+theorem moveaxis_blockswap_trivial (a : NDArray R) (y z : Nat) (h : y + z ≤ a.ndim) :
+    (a.moveaxis (List.range' 0 (0 + 0 + y + z)) (swapTargets 0 0 0 y z)).shape = a.shape ∧
+    ∀ {i : List Nat}, InRange a.shape i →
+      (a.moveaxis (List.range' 0 (0 + 0 + y + z)) (swapTargets 0 0 0 y z)).get i = a.get i := by
+  have hn : a.ndim = 0 + 0 + 0 + y + z + (a.ndim - y - z) := by omega
+  unfold NDArray.moveaxis
+  have := moveaxisOrder_blockswap 0 0 0 y z (a.ndim - y - z)
+  rw [← hn] at this
+  rw [this, swapOrder_x_zero]
+  have e : 0 + 0 + y + (z + (a.ndim - y - z)) = a.ndim := by omega
+  rw [e]
+  exact ⟨transpose_range_shape a, fun hi => transpose_range_get a hi⟩
+
+/-- `tensordot(a, b, 0)`: the outer product. -/
+theorem tensordot_zero (a b : NDArray R) :
+    (NDArray.tensordot a b 0).shape = a.shape ++ b.shape ∧
+    ∀ {x y : List Nat}, InRange a.shape x → InRange b.shape y →
+      (NDArray.tensordot a b 0).get (x ++ y) = a.get x * b.get y := by
+  have ha : a.shape = a.shape ++ [] ++ [] := by simp
+  have hb : b.shape = [] ++ b.shape := by simp
+  have := tensordotAxes_block a b (P := a.shape) (C := []) (Q := []) (D := b.shape) ha hb
+  unfold NDArray.tensordot
+  have e1 : pyRange (a.ndim - 0) a.ndim = List.range' a.shape.length ([] : List Nat).length := by
+    simp [pyRange]
+  have e2 : pyRange 0 0 = List.range' 0 ([] : List Nat).length := by simp [pyRange]
+  rw [e1, e2]
+  refine ⟨by rw [this.1]; simp, ?_⟩
+  intro x y hx hy
+  have h2 := this.2 (p := x) (q := []) (d := y) hx trivial hy
+  simp only [List.append_nil, sumOver_nil, List.nil_append] at h2
+  exact h2
+
+theorem tensor_pyRange (f g : Tensor R) :
+    pyRange 0 ((f.dom ++ g.dom) ++ (f.cod ++ g.cod)).length
+      = List.range' 0 (f.dom.length + f.cod.length + g.dom.length + g.cod.length) := by
+  unfold pyRange
+  congr 1
+  simp only [List.length_append]; omega
+
+/-- The array of `f @ g` before the final reshape. -/
+theorem tensor_array (f g : Tensor R) (hf : f.WF) (hg : g.WF) :
+    ((NDArray.tensordot f.arr g.arr 0).moveaxis
+      (pyRange 0 ((f.dom ++ g.dom) ++ (f.cod ++ g.cod)).length)
+      (tensorTarget f.dom.length f.cod.length g.dom.length g.cod.length)).shape
+      = padShape (spad f.dom f.cod) ++ ((f.dom ++ g.dom) ++ (f.cod ++ g.cod))
+          ++ padShape (spad g.dom g.cod) ∧
+    ∀ {a b c d : List Nat}, InRange f.dom a → InRange f.cod b → InRange g.dom c →
+      InRange g.cod d →
+      ((NDArray.tensordot f.arr g.arr 0).moveaxis
+        (pyRange 0 ((f.dom ++ g.dom) ++ (f.cod ++ g.cod)).length)
+        (tensorTarget f.dom.length f.cod.length g.dom.length g.cod.length)).get
+        (padIdx (spad f.dom f.cod) ++ ((a ++ c) ++ (b ++ d)) ++ padIdx (spad g.dom g.cod))
+        = f.entry (a ++ b) * g.entry (c ++ d) := by
+  rw [tensor_pyRange, tensorTarget_eq]
+  have htd := tensordot_zero f.arr g.arr
+  have hgs : g.arr.shape = g.dom ++ g.cod ++ padShape (spad g.dom g.cod) := by
+    rw [hg.shape, ashape_eq_padR]
+  by_cases hsc : f.dom ++ f.cod = []
+  · -- `f` is a scalar: its array has shape `[1]`, and the moveaxis is the identity
+    have hd : f.dom = [] := (List.append_eq_nil_iff.1 hsc).1
+    have hc : f.cod = [] := (List.append_eq_nil_iff.1 hsc).2
+    have hsp : spad f.dom f.cod = 1 := by simp [spad, hsc]
+    have hfs : f.arr.shape = [1] := by rw [hf.shape]; simp [ashape, hsc]
+    have hts : (NDArray.tensordot f.arr g.arr 0).shape
+        = [1] ++ (g.dom ++ g.cod ++ padShape (spad g.dom g.cod)) := by
+      rw [htd.1, hfs, hgs]
+    have hnd : g.dom.length + g.cod.length ≤ (NDArray.tensordot f.arr g.arr 0).ndim := by
+      simp [NDArray.ndim, hts]; omega
+    have hm := moveaxis_blockswap_trivial (NDArray.tensordot f.arr g.arr 0) g.dom.length
+      g.cod.length hnd
+    have hsp' : spad [] [] = 1 := rfl
+    simp only [hd, hc, hsp', List.length_nil, List.nil_append] at hm ⊢
+    refine ⟨by rw [hm.1, hts]; simp [padShape, List.append_assoc], ?_⟩
+    intro a b c d ha hb hc' hd'
+    have ha' : a = [] := inRange_nil_iff.1 ha
+    have hb' : b = [] := inRange_nil_iff.1 hb
+    subst ha' hb'
+    have hin : InRange (NDArray.tensordot f.arr g.arr 0).shape
+        (padIdx 1 ++ (c ++ d) ++ padIdx (spad g.dom g.cod)) := by
+      rw [hts]
+      have := inRange_pad 1 (spad g.dom g.cod) (inRange_append hc' hd')
+      simpa [padShape, List.append_assoc] using this
+    simp only [List.nil_append]
+    rw [hm.2 hin]
+    have hx : InRange f.arr.shape (padIdx 1) := by rw [hfs]; exact inRange_padShape 1
+    have hy : InRange g.arr.shape ((c ++ d) ++ padIdx (spad g.dom g.cod)) := by
+      rw [hgs]; exact inRange_append (inRange_append hc' hd') (inRange_padShape _)
+    have := htd.2 hx hy
+    simp only [List.append_assoc] at this ⊢
+    rw [this, entry_eq_get_padL hf, entry_eq_get_padR hg (by simp [hc'.length_eq, hd'.length_eq])]
+    simp [hsp', hd, hc, List.append_assoc]
+  · have hsp : spad f.dom f.cod = 0 := by simp [spad, hsc]
+    have hfs : f.arr.shape = f.dom ++ f.cod := by rw [hf.shape]; simp [ashape, hsc]
+    have hts : (NDArray.tensordot f.arr g.arr 0).shape
+        = [] ++ f.dom ++ f.cod ++ g.dom ++ g.cod ++ padShape (spad g.dom g.cod) := by
+      rw [htd.1, hfs, hgs]; simp [List.append_assoc]
+    have hm := moveaxis_blockswap (NDArray.tensordot f.arr g.arr 0) hts
+    simp only [List.length_nil, List.nil_append] at hm
+    have e0 : 0 + f.dom.length + f.cod.length + g.dom.length + g.cod.length
+        = f.dom.length + f.cod.length + g.dom.length + g.cod.length := by omega
+    simp only [hsp, padShape_zero, padIdx_zero, List.nil_append]
+    rw [← e0]
+    simp only [Nat.zero_add] at hm ⊢
+    refine ⟨by rw [hm.1]; simp [List.append_assoc], ?_⟩
+    intro a b c d ha hb hc hd
+    have := hm.2 ha hb hc (inRange_append hd (inRange_padShape (spad g.dom g.cod)))
+    simp only [List.append_assoc] at this ⊢
+    rw [this]
+    have hx : InRange f.arr.shape (a ++ b) := by rw [hfs]; exact inRange_append ha hb
+    have hy : InRange g.arr.shape ((c ++ d) ++ padIdx (spad g.dom g.cod)) := by
+      rw [hgs]; exact inRange_append (inRange_append hc hd) (inRange_padShape _)
+    have h2 := htd.2 hx hy
+    simp only [List.append_assoc] at h2
+    rw [h2, entry_eq_get_padL hf, entry_eq_get_padR hg (by simp [hc.length_eq, hd.length_eq])]
+    simp [hsp, List.append_assoc]
+
+theorem tensor_wf (f g : Tensor R) (hf : f.WF) (hg : g.WF) : (f.tensor g).WF := by
+  apply mk'_wf
+  · unfold NDArray.moveaxis NDArray.transpose
+    exact ofFn_wf _ _
+  · rw [(tensor_array f g hf hg).1, prod_pad]
+
+/-- **Tensor is the Kronecker product** (tensor.py:190-205): the `target` list realises
+    `[A, B, C, D] ↦ [A, C, B, D]` for all block lengths. -/
+theorem tensor_entry (f g : Tensor R) (hf : f.WF) (hg : g.WF) {a b c d : List Nat}
+    (ha : InRange f.dom a) (hb : InRange f.cod b) (hc : InRange g.dom c) (hd : InRange g.cod d) :
+    (f.tensor g).entry ((a ++ c) ++ (b ++ d)) = f.entry (a ++ b) * g.entry (c ++ d) := by
+  unfold Tensor.tensor
+  rw [entry_mk'_pad _ _ _ _ _ (tensor_array f g hf hg).1
+    (by simp [ha.length_eq, hb.length_eq, hc.length_eq, hd.length_eq])]
+  exact (tensor_array f g hf hg).2 ha hb hc hd
+
+/-! #### identity -/
+
+theorem id_wf (d : List Nat) : (Tensor.id (R := R) d).WF := by
+  apply mk'_wf
+  · exact ofFn_wf _ _
+  · simp [NDArray.identity, ofFn, prod, prod_append]
+
+/-- **Identities are identity matrices** (tensor.py:214-217). -/
+theorem id_entry (d : List Nat) {i j : List Nat} (hi : InRange d i) (hj : InRange d j) :
+    (Tensor.id (R := R) d).entry (i ++ j) = if i = j then 1 else 0 := by
+  have h1 := flatIdx_lt hi
+  have h2 := flatIdx_lt hj
+  have hin : InRange [prod d, prod d] [flatIdx d i, flatIdx d j] := by simp [h1, h2]
+  have hpos : flatIdx (d ++ d) (i ++ j) = flatIdx [prod d, prod d] [flatIdx d i, flatIdx d j] := by
+    rw [flatIdx_append _ _ hi.length_eq]; simp [flatIdx, prod]
+  have := ofFn_get (R := R) [prod d, prod d]
+    (fun i => if i.getD 0 0 = i.getD 1 0 then 1 else 0) hin
+  unfold Tensor.entry Tensor.id mk' NDArray.reshape NDArray.identity
+  simp only [hpos]
+  unfold NDArray.get at this
+  simp only [ofFn] at this ⊢
+  rw [this]
+  simp only [List.getD_cons_zero, List.getD_cons_succ]
+  by_cases h : i = j
+  · simp [h]
+  · have : flatIdx d i ≠ flatIdx d j := fun e => h (flatIdx_inj hi hj e)
+    simp [h, this]
+
+/-! #### dagger -/
+
+end Tensor
+
+/-- Conjugation of a star ring, as the model's `Conj`. -/
+instance starConj {R : Type} [Star R] : Conj R := ⟨star⟩
+
+namespace Tensor
+variable {R : Type} [CommSemiring R] [StarRing R]
+
+theorem conj_get (a : NDArray R) (i : List Nat) : a.conj.get i = star (a.get i) := by
+  unfold NDArray.conj NDArray.get
+  simp only [Array.getD_eq_getD_getElem?, Array.getElem?_map]
+  cases a.data[flatIdx a.shape i]? <;> simp [Conj.conj]
+
+theorem conj_wf (a : NDArray R) (h : a.WF) : a.conj.WF := by
+  simpa [NDArray.WF, NDArray.conj] using h
+
+theorem dagger_pyRange (f : Tensor R) :
+    pyRange 0 (f.dom ++ f.cod).length = List.range' 0 (0 + f.dom.length + f.cod.length + 0) := by
+  unfold pyRange
+  congr 1
+  simp
+
+theorem dagger_array (f : Tensor R) (hf : f.WF) :
+    (f.arr.moveaxis (pyRange 0 (f.dom ++ f.cod).length)
+      (daggerTarget f.dom.length f.cod.length)).shape
+      = padShape 0 ++ (f.cod ++ f.dom) ++ padShape (spad f.dom f.cod) ∧
+    ∀ {i k : List Nat}, InRange f.dom i → InRange f.cod k →
+      (f.arr.moveaxis (pyRange 0 (f.dom ++ f.cod).length)
+        (daggerTarget f.dom.length f.cod.length)).get
+        (padIdx 0 ++ (k ++ i) ++ padIdx (spad f.dom f.cod)) = f.entry (i ++ k) := by
+  have hs : f.arr.shape = [] ++ [] ++ f.dom ++ f.cod ++ [] ++ padShape (spad f.dom f.cod) := by
+    rw [hf.shape, ashape_eq_padR]; simp
+  have hm := moveaxis_blockswap f.arr hs
+  rw [dagger_pyRange, daggerTarget_eq]
+  simp only [List.length_nil, List.nil_append, List.append_nil, padShape_zero, padIdx_zero] at hm ⊢
+  refine ⟨by rw [hm.1], ?_⟩
+  intro i k hi hk
+  have := hm.2 (pw := []) trivial hi hk (inRange_padShape (spad f.dom f.cod))
+  simp only [List.nil_append] at this
+  rw [this, entry_eq_get_padR hf (by simp [hi.length_eq, hk.length_eq])]
+
+theorem dagger_wf (f : Tensor R) (hf : f.WF) : f.dagger.WF := by
+  apply mk'_wf
+  · apply conj_wf
+    unfold NDArray.moveaxis NDArray.transpose
+    exact ofFn_wf _ _
+  · have : (NDArray.conj (f.arr.moveaxis (pyRange 0 (f.dom ++ f.cod).length)
+        (daggerTarget f.dom.length f.cod.length))).shape
+        = (f.arr.moveaxis (pyRange 0 (f.dom ++ f.cod).length)
+        (daggerTarget f.dom.length f.cod.length)).shape := rfl
+    rw [this, (dagger_array f hf).1, prod_pad]
+
+/-- **Dagger is the conjugate transpose** (tensor.py:207-212). -/
+theorem dagger_entry (f : Tensor R) (hf : f.WF) {i k : List Nat}
+    (hi : InRange f.dom i) (hk : InRange f.cod k) :
+    f.dagger.entry (k ++ i) = star (f.entry (i ++ k)) := by
+  unfold Tensor.dagger
+  have hs : (NDArray.conj (f.arr.moveaxis (pyRange 0 (f.dom ++ f.cod).length)
+      (daggerTarget f.dom.length f.cod.length))).shape
+      = padShape 0 ++ (f.cod ++ f.dom) ++ padShape (spad f.dom f.cod) := (dagger_array f hf).1
+  rw [entry_mk'_pad _ _ _ _ _ hs (by simp [hi.length_eq, hk.length_eq]), conj_get,
+    (dagger_array f hf).2 hi hk]
+
+end Tensor
+
+/-! #### swap -/
+
+namespace Tensor
+variable {R : Type} [CommSemiring R]
+
+theorem swap_pyRange (l r : List Nat) :
+    pyRange (l ++ r).length (2 * (l ++ r).length)
+      = List.range' (l ++ r).length (0 + l.length + r.length + 0) := by
+  unfold pyRange
+  congr 1
+  simp; omega
+
+theorem swap_array (l r : List Nat) :
+    ((Tensor.id (R := R) (l ++ r)).arr.moveaxis (pyRange (l ++ r).length (2 * (l ++ r).length))
+      (swapTarget l.length r.length)).shape
+      = padShape 0 ++ ((l ++ r) ++ (r ++ l)) ++ padShape (spad (l ++ r) (l ++ r)) ∧
+    ∀ {i j i' j' : List Nat}, InRange l i → InRange r j → InRange r j' → InRange l i' →
+      ((Tensor.id (R := R) (l ++ r)).arr.moveaxis (pyRange (l ++ r).length (2 * (l ++ r).length))
+        (swapTarget l.length r.length)).get
+        (padIdx 0 ++ ((i ++ j) ++ (j' ++ i')) ++ padIdx (spad (l ++ r) (l ++ r)))
+        = (Tensor.id (R := R) (l ++ r)).entry ((i ++ j) ++ (i' ++ j')) := by
+  have hwf := id_wf (R := R) (l ++ r)
+  have hs : (Tensor.id (R := R) (l ++ r)).arr.shape
+      = (l ++ r) ++ [] ++ l ++ r ++ [] ++ padShape (spad (l ++ r) (l ++ r)) := by
+    rw [hwf.shape, ashape_eq_padR]; simp [Tensor.id, List.append_assoc]
+  have hm := moveaxis_blockswap _ hs
+  rw [swap_pyRange, swapTarget_eq]
+  have e : l.length + r.length = (l ++ r).length := by simp
+  rw [e]
+  simp only [List.length_nil, List.nil_append, List.append_nil, padShape_zero, padIdx_zero] at hm ⊢
+  refine ⟨by rw [hm.1]; simp [List.append_assoc], ?_⟩
+  intro i j i' j' hi hj hj' hi'
+  have := hm.2 (inRange_append hi hj) hi' hj' (inRange_padShape _)
+  simp only [List.append_assoc] at this ⊢
+  rw [this]
+  have h2 := entry_eq_get_padR hwf (i := (i ++ j) ++ (i' ++ j'))
+    (by simp [Tensor.id, hi.length_eq, hj.length_eq, hi'.length_eq, hj'.length_eq])
+  simp only [List.append_assoc] at h2
+  rw [h2]
+  rfl
+
+theorem swap_wf (l r : List Nat) : (Tensor.swap (R := R) l r).WF := by
+  apply mk'_wf
+  · unfold NDArray.moveaxis NDArray.transpose
+    exact ofFn_wf _ _
+  · rw [(swap_array l r).1, prod_pad]
+
+/-- **Swaps are the permutation matrices exchanging the two blocks** (tensor.py:230-237). -/
+theorem swap_entry (l r : List Nat) {i j j' i' : List Nat}
+    (hi : InRange l i) (hj : InRange r j) (hj' : InRange r j') (hi' : InRange l i') :
+    (Tensor.swap (R := R) l r).entry ((i ++ j) ++ (j' ++ i'))
+      = if i = i' ∧ j = j' then 1 else 0 := by
+  unfold Tensor.swap
+  rw [entry_mk'_pad _ _ _ _ _ (swap_array l r).1
+    (by simp [hi.length_eq, hj.length_eq, hi'.length_eq, hj'.length_eq]),
+    (swap_array l r).2 hi hj hj' hi', id_entry _ (inRange_append hi hj) (inRange_append hi' hj')]
+  have : i ++ j = i' ++ j' ↔ i = i' ∧ j = j' := by
+    constructor
+    · intro h
+      exact List.append_inj h (by rw [hi.length_eq, hi'.length_eq])
+    · rintro ⟨rfl, rfl⟩; rfl
+  simp only [this]
+
 end Tensor
 
 end DV
